@@ -63,6 +63,9 @@ type Conn struct {
 	cond *sync.Cond
 
 	Local, Remote Addr
+	// RemoteOverride, when set before the connection is handed to the server, is what RemoteAddr reports (a
+	// *net.TCPAddr / *net.UnixAddr as a real listener would)
+	RemoteOverride net.Addr
 
 	segs   []segment
 	eof    bool
@@ -213,8 +216,13 @@ func (c *Conn) Close() error {
 	return nil
 }
 
-func (c *Conn) LocalAddr() net.Addr  { return c.Local }
-func (c *Conn) RemoteAddr() net.Addr { return c.Remote }
+func (c *Conn) LocalAddr() net.Addr { return c.Local }
+func (c *Conn) RemoteAddr() net.Addr {
+	if c.RemoteOverride != nil {
+		return c.RemoteOverride
+	}
+	return c.Remote
+}
 
 // Deadlines are recorded, never enforced (no wall clock in verdicts): a deadline
 // that is still armed at quiescence is a structural fact a check can judge.
